@@ -254,6 +254,7 @@ def run(ctx):
                        "%s gives up %s" % (show(e), "the edge cycle[i] -> cycle[i+1] of the cycle just found" if on_cycle else "an edge that is not (recognisably) consecutive elements of the cycle just found"))
         ctx.ob("R16.2", "erase#%d" % i, ok, fw.loc(e), "%s: %s" % (show(e), why))
     _library_keys(ctx, fw)
+    _cycle_search_is_linear(ctx)
     # emission loops
     n_em = 0
     for n in fw.walk():
@@ -342,3 +343,58 @@ def _library_keys(ctx, fw):
                    "the library of every contributing %s is %sregistered in `dependencies` unconditionally" % ("type" if "type" in i.get("f", "") else "function", "" if ok else "NOT "))
     ctx.floor("R16.3", "library names read from contributing entities", n_names, 2)
 
+
+
+def _cycle_search_is_linear(ctx):
+    """R16.4: "dependency cycles are reported and broken without hanging".  The cycle search is a recursive DFS over the
+    library graph.  Without a set of finished nodes a DFS enumerates every PATH, which is exponential in a dense acyclic
+    graph; and the caller restarts it from every library after a cycle was broken.  Decided structurally: the recursion
+    expands a successor only if it is not in a set parameter, and every `return false` of the search is preceded by the
+    insertion of the node just expanded into that set - so each library is expanded at most once.  (F-C16b.)"""
+    db = ctx.db
+    ctx.rule("R16.4", "find_dependency_cycle() recurses into a successor only behind `<set>.count/find(successor)` saying it is absent, and inserts the expanded node into the same set on every path that returns `no cycle`")
+    fs = [f for f in db.functions if f.name.endswith("find_dependency_cycle")]
+    if not fs:
+        ctx.broken("R16.4: find_dependency_cycle not found")
+    f = fs[0]
+    sets = [p for p in f.params if "set<" in p["t"] and "map<" not in p["t"]]
+    rec = [c for c in f.walk() if c.get("k") == "call" and c.get("f") == f.name]
+    if not rec:
+        ctx.ob("R16.4", "find_dependency_cycle|iterative", True, f.loc(), "no recursion any more (not judged further)")
+        return
+    ok_gate = False
+    ok_ins = False
+    which = None
+    for sp in sets:
+        d = sp["d"]
+
+        def absent(atom, truth, d=d):
+            c = G.cmp_atom(atom)
+            if not c:
+                return False
+            op, u, v = c
+            if not truth:
+                op = G.NEG[op]
+            for p, q in ((u, v), (v, u)):
+                pp = strip_casts(peel(p)) if p is not None else None
+                if pp is not None and pp.get("k") == "call" and callee_short(pp) in ("count", "find") and (local_ref(pp.get("this")) or {}).get("d") == d:
+                    if callee_short(pp) == "count":
+                        return q is not None and const_int(q) == 0 and op == "=="
+                    qq = strip_casts(peel(q)) if q is not None else None
+                    return qq is not None and qq.get("k") == "call" and callee_short(qq) == "end" and op == "=="
+            return False
+        edges = G.edges_where(f, absent)
+        gate = bool(edges) and all(G.gated(f, c, edges) for c in rec)
+        ins = [c for c in f.walk() if c.get("k") == "call" and callee_short(c) in ("insert", "emplace") and (local_ref(c.get("this")) or {}).get("d") == d]
+        rets = [r for r in f.walk() if r.get("k") == "ret" and const_int(r.get("e")) == 0]
+        ins_blocks = [f.cfg.locate(c)[0] for c in ins if f.cfg.locate(c)]
+        # every `return false` is unreachable from entry once the inserting blocks are cut (= it passes an insertion)
+        through = bool(rets) and bool(ins_blocks) and all(f.cfg.locate(r)[0] in ins_blocks or f.cfg.locate(r)[0] not in f.cfg.reachable(cut_blocks=ins_blocks) for r in rets)
+        if gate and through:
+            ok_gate, ok_ins, which = True, True, sp["n"]
+        elif gate or through:
+            ok_gate, ok_ins, which = ok_gate or gate, ok_ins or through, sp["n"]
+    ctx.ob("R16.4", "find_dependency_cycle|recursion-skips-finished-nodes", ok_gate, f.loc(rec[0]),
+           "the recursive call is %sbehind a membership test on a set parameter%s" % ("" if ok_gate else "NOT ", (" `%s`" % which) if which else ""))
+    ctx.ob("R16.4", "find_dependency_cycle|no-cycle-return-marks-node-finished", ok_ins, f.loc(),
+           "every `return false` %s an insertion into that set" % ("passes" if ok_ins else "does NOT pass"))
